@@ -149,6 +149,29 @@ class ConcDraw:
         return seq[self.choice(name, len(seq))]
 
 
+class Prefixed:
+    """a view of a draw object whose names carry a prefix (a second, independent copy of a sub-harness's inputs)"""
+
+    def __init__(self, d, prefix):
+        self.d, self.prefix = d, prefix
+        self.symbolic = d.symbolic
+
+    def string(self, name, n, alpha):
+        return self.d.string(self.prefix + name, n, alpha)
+
+    def char_in(self, name, chars):
+        return self.d.char_in(self.prefix + name, chars)
+
+    def choice(self, name, k):
+        return self.d.choice(self.prefix + name, k)
+
+    def boolean(self, name):
+        return self.d.boolean(self.prefix + name)
+
+    def pick(self, name, seq):
+        return self.d.pick(self.prefix + name, seq)
+
+
 def explore(fn, max_paths=200000, max_seconds=600.0, sample_paths=3, keep_violations=50):
     """fn(draw) -> True | failure tuple.  Returns a result dict."""
     t0 = time.time()
